@@ -3,7 +3,7 @@
    every image; WellFormed characterises the images on which every conforming reader must agree with it.
    Checked for totality and bounds on all small images by MC_TagReadRef; oracle for the well-formed
    Type 2 images of recorded runs in Trace_TagRead. *)
-EXTENDS Naturals, Sequences, FiniteSets, TLC, SequencesExt
+EXTENDS Integers, Sequences, FiniteSets, TLC, SequencesExt
 
 \* ---- reference reader for the Type 2 TLV area --------------------------------------------------
 \* mem: sequence of bytes, mem[i+1] is the byte at address i.  Data area = addresses lo .. hi-1.
